@@ -1192,6 +1192,8 @@ def run(ctx):
         "aeif / atomic_indicator_field: value of the nearest atom when the point lies inside any sphere of the conformer, else 0; grid points where "
         "'nearest atom' and 'nearest atom among the spheres containing the point' differ in value are not compared (the text does not choose)",
         "van der Waals radii are read from Atom.vdw_radius (input data of the definition)",
+        "an explicit 0 / 0.0 for an optional numeric argument (padding, max_dist, eps) is that value: prune(eps=0) keeps every point within max_dist and nothing beyond; "
+        "max_dist=0 keeps / names only points that coincide with an atom (those are inside the rounding band and not compared; everything else must be dropped / -1)",
         "caller-supplied nearest_atom_idx tables (cut-offs below / at / above the largest radius, nearly all and all -1): per conformer and grid point the value of the "
         "table's atom when the entry is >= 0 and the point is inside some sphere, otherwise 0; -1 means 'no atom'",
         "argument kinds: rectangular_grid corners as list / tuple / ndarray of the requested dtype / of the other float dtype / non-contiguous view / read-only array; "
@@ -1237,6 +1239,19 @@ def run(ctx):
     jobs.append(("history:geom", hist.descriptor_history_job, {"seed": seed, "thorough": thorough, "part": "geom"}))
     jobs.append(("argument-kinds", hist.argkind_job, {"seed": seed, "thorough": thorough}))
     jobs.append(("caller-tables", hist.table_job, {"seed": seed, "thorough": thorough}))
+    # size dimension (mc/props/c19_big.py): many coordinates with explicit zeros, and problem sizes around 2^20, 2^22, 2^24 (2^26)
+    from mc.props import c19_big as big
+
+    jobs.append(("many-coordinates", big.many_coords_job, {"seed": seed}))
+    big_jobs = []
+    for k in (20, 22, 24) + ((26,) if thorough else ()):
+        if k >= 24:
+            big_jobs += [(f"size 2^{k} {fn}", big.big_job, {"seed": seed, "k": k, "funcs": (fn,)}) for fn in big.FUNCS]
+        else:
+            big_jobs.append((f"size 2^{k}", big.big_job, {"seed": seed, "k": k, "funcs": big.FUNCS}))
+    jobs = big_jobs[::-1] + jobs  # the long ones first
+    ctx.bound["size_classes"] = [f"4 conformers x 16 atoms x {p} grid points" for k in (20, 22, 24) + ((26,) if thorough else ()) for p in big.PRIMES[k]]
+    ctx.bound["many_coordinates"] = {"inputs": "11 / 40 / 200 atoms, ensemble 4 x 25", "eps": [repr(x) for x in big.EPS_MENU], "max_dist": [repr(x) for x in big.MD_MENU]}
     ctx.bound["history"] = {
         "ensemble_functions": list(hist.ENS_FUNCS), "ensemble_edits": list(hist.ENS_EDITS), "geometry_functions": list(hist.GEOM_FUNCS), "geometry_edits": list(hist.GEOM_EDITS),
         "calls_per_sequence": "2 (all ordered function pairs x every edit) and 3 (reduced menus)", "base_objects": nb,
@@ -1310,6 +1325,10 @@ def _replay_here(ctx, agg, case, emit=True):
         from mc.props import c19_history as hist
 
         hist.replay_history(ctx, agg, case)
+    elif kind in ("big", "many-coords"):
+        from mc.props import c19_big as big
+
+        big.replay_big(ctx, agg, case)
     elif kind == "table":
         from mc.props import c19_history as hist
 
